@@ -45,7 +45,8 @@ ENTRIES = {
     "C06": ["bec.ParseDERSignature", "bec.ParseSignature", "bec.Signature.Serialise", "bec.Signature.IsEqual", "bec.S256"],
     "C07": ["bip39.Mnemonic", "bip39.MnemonicToSeed"],
     "C08": _XK + ["bip32.DerivePath", "bip32.DeriveNumber"],
-    "C09": [],      # regenerated (translator + IR) and re-proved on every run
+    "C09": _CURVE,  # field.go and the curve formulas are regenerated and re-proved; the glue between the big.Int API and
+                    # them (bigAffineToField, the scalar loops, NAF, splitK) is hand-modelled and decides the call-site contracts
     "C10": [],
     "C11": ["bec.Encrypt", "bec.Decrypt", "bec.GenerateSharedSecret", "bec.NewPrivateKey", "bec.PrivKeyFromBytes", "crypto.Encrypt", "crypto.Decrypt", "bec.S256"],
     "C12": ["bec.SignCompact", "bec.RecoverCompact", "bec.PrivKeyFromBytes", "bec.S256"],
